@@ -90,7 +90,7 @@ Theorem inband_open_same_config c a :
   wf_cfg c -> find_chan (ch_id c) (a_chans a) = None ->
   exists ch,
     handle_dcep a (ch_id c) (marshal_open (open_of_chan c)) =
-      (mkApp (a_chans a ++ [ch]) (a_streams a),
+      (mkApp3 (a_chans a ++ [ch]) (a_streams a) (a_dcep a),
        [Ev (ch_id c) EOpen; NewDc ch; TxDcep (ch_id c) [DCEP_TYPE_ACK]], true) /\
     ch_id ch = ch_id c /\ ch_label ch = ch_label c /\ ch_proto ch = ch_proto c /\
     ch_ordered ch = ch_ordered c /\ ch_rex ch = ch_rex c /\ ch_life ch = ch_life c /\
@@ -123,10 +123,30 @@ Proof.
   intros Hu Hf [tl ->]. unfold handle_dcep. rewrite Z.eqb_refl, Hu, Hf. reflexivity.
 Qed.
 
-(* a malformed OPEN is an error of process_data_payload: the chunk is not acknowledged (the
-   cumulative TSN does not advance past it) -- recorded in the notes as a peer-triggered stall *)
-Example malformed_open_not_consumed :
+(* a malformed OPEN is dropped: the chunk is consumed (the cumulative TSN moves past it), nothing
+   is created or announced (before fix 412d9a4 the error aborted handle_data and the association
+   stalled behind that TSN for ever) *)
+Example malformed_open_consumed :
   let st := est_r 999 [] in
   let c := D 1000 7 5 0 DATA_CHANNEL_PPID_DCEP [DCEP_TYPE_OPEN; 0; 0] in
-  r_cum (fst (recv_data st c)) = 999 /\ snd (recv_data st c) = [].
-Proof. vm_compute. split; reflexivity. Qed.
+  r_cum (fst (recv_data st c)) = 1000 /\ snd (recv_data st c) = [] /\ a_chans (r_app (fst (recv_data st c))) = [].
+Proof. vm_compute. repeat split; reflexivity. Qed.
+
+(* a DCEP OPEN longer than one DATA chunk is reassembled: two fragments of the OPEN that
+   send_dcep_open builds for a channel with a long label create that channel *)
+Definition long_chan : chan :=
+  mkChan 101 true false (repeat 76 1300) [112] None None DataChannelState_Connecting [].
+Example fragmented_open_reassembled :
+  let o := marshal_open (open_of_chan long_chan) in
+  let f1 := firstn 1172 o in
+  let f2 := skipn 1172 o in
+  let r := run (est_r 4999 [])
+               [IData (D 5000 6 101 0 DATA_CHANNEL_PPID_DCEP f1); IData (D 5001 5 101 0 DATA_CHANNEL_PPID_DCEP f2);
+                IData (D 5002 3 101 0 53 [104; 105])] in
+  Z.of_nat (length o) = 1313 /\ r_cum (fst r) = 5002 /\
+  evs_of 101 (snd r) = [EOpen; EMsg [104; 105]] /\
+  match a_chans (r_app (fst r)) with
+  | [ch] => ch_label ch = repeat 76 1300 /\ ch_proto ch = [112] /\ ch_ordered ch = true
+  | _ => False
+  end.
+Proof. vm_compute. repeat split; reflexivity. Qed.
